@@ -465,7 +465,7 @@ fn random_stage(prop: &dyn Prop, tier: Tier, seed: u64, findings: &Findings, thr
                     cases: per as u32,
                     failure_persistence: None,
                     rng_seed: RngSeed::Fixed(seed_for(seed, prop.id(), shard as u64 ^ 0xABCD00)),
-                    max_shrink_iters: 5000,
+                    max_shrink_iters: 1500,
                     ..Config::default()
                 };
                 let mut runner = TestRunner::new(cfg);
@@ -493,9 +493,7 @@ fn random_stage(prop: &dyn Prop, tier: Tier, seed: u64, findings: &Findings, thr
                     Ok(()) => {}
                     Err(TestError::Fail(_, v)) => {
                         let mut small = v;
-                        while small.last() == Some(&0) {
-                            small.pop();
-                        }
+                        small = shrink_stream(prop, &small, 0, tier, findings);
                         let (msg, rendered) = render_failure(prop, &small, tier, findings);
                         fail = Some(Failure { engine: "proptest", stream: small, message: msg, rendered });
                     }
